@@ -9,3 +9,4 @@ import Dasp.Props.C20
 import Dasp.Props.C04
 import Dasp.Props.C05
 import Dasp.Props.C16
+import Dasp.Props.C17
